@@ -629,32 +629,32 @@ def pull_client_hello(buf: Buffer) -> ClientHello:
                 raise AlertIllegalParameter("PreSharedKey is not the last extension")
 
             extension_type = buf.pull_uint16()
-            extension_length = buf.pull_uint16()
-            if extension_type == ExtensionType.KEY_SHARE:
-                hello.key_share = pull_list(buf, 2, partial(pull_key_share, buf))
-            elif extension_type == ExtensionType.SUPPORTED_VERSIONS:
-                hello.supported_versions = pull_list(buf, 1, buf.pull_uint16)
-            elif extension_type == ExtensionType.SIGNATURE_ALGORITHMS:
-                hello.signature_algorithms = pull_list(buf, 2, buf.pull_uint16)
-            elif extension_type == ExtensionType.SUPPORTED_GROUPS:
-                hello.supported_groups = pull_list(buf, 2, buf.pull_uint16)
-            elif extension_type == ExtensionType.PSK_KEY_EXCHANGE_MODES:
-                hello.psk_key_exchange_modes = pull_list(buf, 1, buf.pull_uint8)
-            elif extension_type == ExtensionType.SERVER_NAME:
-                hello.server_name = pull_server_name(buf)
-            elif extension_type == ExtensionType.ALPN:
-                hello.alpn_protocols = pull_list(
-                    buf, 2, partial(pull_alpn_protocol, buf)
-                )
-            elif extension_type == ExtensionType.EARLY_DATA:
-                hello.early_data = True
-            elif extension_type == ExtensionType.PRE_SHARED_KEY:
-                hello.pre_shared_key = pull_offered_psks(buf)
-                after_psk = True
-            else:
-                hello.other_extensions.append(
-                    (extension_type, buf.pull_bytes(extension_length))
-                )
+            with pull_block(buf, 2) as extension_length:
+                if extension_type == ExtensionType.KEY_SHARE:
+                    hello.key_share = pull_list(buf, 2, partial(pull_key_share, buf))
+                elif extension_type == ExtensionType.SUPPORTED_VERSIONS:
+                    hello.supported_versions = pull_list(buf, 1, buf.pull_uint16)
+                elif extension_type == ExtensionType.SIGNATURE_ALGORITHMS:
+                    hello.signature_algorithms = pull_list(buf, 2, buf.pull_uint16)
+                elif extension_type == ExtensionType.SUPPORTED_GROUPS:
+                    hello.supported_groups = pull_list(buf, 2, buf.pull_uint16)
+                elif extension_type == ExtensionType.PSK_KEY_EXCHANGE_MODES:
+                    hello.psk_key_exchange_modes = pull_list(buf, 1, buf.pull_uint8)
+                elif extension_type == ExtensionType.SERVER_NAME:
+                    hello.server_name = pull_server_name(buf)
+                elif extension_type == ExtensionType.ALPN:
+                    hello.alpn_protocols = pull_list(
+                        buf, 2, partial(pull_alpn_protocol, buf)
+                    )
+                elif extension_type == ExtensionType.EARLY_DATA:
+                    hello.early_data = True
+                elif extension_type == ExtensionType.PRE_SHARED_KEY:
+                    hello.pre_shared_key = pull_offered_psks(buf)
+                    after_psk = True
+                else:
+                    hello.other_extensions.append(
+                        (extension_type, buf.pull_bytes(extension_length))
+                    )
 
         pull_list(buf, 2, pull_extension)
 
@@ -742,17 +742,17 @@ def pull_server_hello(buf: Buffer) -> ServerHello:
         # extensions
         def pull_extension() -> None:
             extension_type = buf.pull_uint16()
-            extension_length = buf.pull_uint16()
-            if extension_type == ExtensionType.SUPPORTED_VERSIONS:
-                hello.supported_version = buf.pull_uint16()
-            elif extension_type == ExtensionType.KEY_SHARE:
-                hello.key_share = pull_key_share(buf)
-            elif extension_type == ExtensionType.PRE_SHARED_KEY:
-                hello.pre_shared_key = buf.pull_uint16()
-            else:
-                hello.other_extensions.append(
-                    (extension_type, buf.pull_bytes(extension_length))
-                )
+            with pull_block(buf, 2) as extension_length:
+                if extension_type == ExtensionType.SUPPORTED_VERSIONS:
+                    hello.supported_version = buf.pull_uint16()
+                elif extension_type == ExtensionType.KEY_SHARE:
+                    hello.key_share = pull_key_share(buf)
+                elif extension_type == ExtensionType.PRE_SHARED_KEY:
+                    hello.pre_shared_key = buf.pull_uint16()
+                else:
+                    hello.other_extensions.append(
+                        (extension_type, buf.pull_bytes(extension_length))
+                    )
 
         pull_list(buf, 2, pull_extension)
 
@@ -812,13 +812,13 @@ def pull_new_session_ticket(buf: Buffer) -> NewSessionTicket:
 
         def pull_extension() -> None:
             extension_type = buf.pull_uint16()
-            extension_length = buf.pull_uint16()
-            if extension_type == ExtensionType.EARLY_DATA:
-                new_session_ticket.max_early_data_size = buf.pull_uint32()
-            else:
-                new_session_ticket.other_extensions.append(
-                    (extension_type, buf.pull_bytes(extension_length))
-                )
+            with pull_block(buf, 2) as extension_length:
+                if extension_type == ExtensionType.EARLY_DATA:
+                    new_session_ticket.max_early_data_size = buf.pull_uint32()
+                else:
+                    new_session_ticket.other_extensions.append(
+                        (extension_type, buf.pull_bytes(extension_length))
+                    )
 
         pull_list(buf, 2, pull_extension)
 
@@ -859,17 +859,17 @@ def pull_encrypted_extensions(buf: Buffer) -> EncryptedExtensions:
 
         def pull_extension() -> None:
             extension_type = buf.pull_uint16()
-            extension_length = buf.pull_uint16()
-            if extension_type == ExtensionType.ALPN:
-                extensions.alpn_protocol = pull_list(
-                    buf, 2, partial(pull_alpn_protocol, buf)
-                )[0]
-            elif extension_type == ExtensionType.EARLY_DATA:
-                extensions.early_data = True
-            else:
-                extensions.other_extensions.append(
-                    (extension_type, buf.pull_bytes(extension_length))
-                )
+            with pull_block(buf, 2) as extension_length:
+                if extension_type == ExtensionType.ALPN:
+                    extensions.alpn_protocol = pull_list(
+                        buf, 2, partial(pull_alpn_protocol, buf)
+                    )[0]
+                elif extension_type == ExtensionType.EARLY_DATA:
+                    extensions.early_data = True
+                else:
+                    extensions.other_extensions.append(
+                        (extension_type, buf.pull_bytes(extension_length))
+                    )
 
         pull_list(buf, 2, pull_extension)
 
@@ -956,15 +956,15 @@ def pull_certificate_request(buf: Buffer) -> CertificateRequest:
 
         def pull_extension() -> None:
             extension_type = buf.pull_uint16()
-            extension_length = buf.pull_uint16()
-            if extension_type == ExtensionType.SIGNATURE_ALGORITHMS:
-                certificate_request.signature_algorithms = pull_list(
-                    buf, 2, buf.pull_uint16
-                )
-            else:
-                certificate_request.other_extensions.append(
-                    (extension_type, buf.pull_bytes(extension_length))
-                )
+            with pull_block(buf, 2) as extension_length:
+                if extension_type == ExtensionType.SIGNATURE_ALGORITHMS:
+                    certificate_request.signature_algorithms = pull_list(
+                        buf, 2, buf.pull_uint16
+                    )
+                else:
+                    certificate_request.other_extensions.append(
+                        (extension_type, buf.pull_bytes(extension_length))
+                    )
 
         pull_list(buf, 2, pull_extension)
 
